@@ -3,6 +3,7 @@
 import json,glob,os
 rows=[]
 for d in sorted(glob.glob('/verif/seeded/*/')):
+    if not os.path.exists(d+'meta.json'): continue
     m=json.load(open(d+'meta.json'))
     own=m['breaks_property']
     caught=m.get('caught_by',[])
@@ -10,7 +11,7 @@ for d in sorted(glob.glob('/verif/seeded/*/')):
     for c in ([own] if own in caught else caught[:1]):
         for l in m['checks'][c]['lines']:
             if 'signature' in l: sig=l.split('signature:',1)[1].strip()[:90]; break
-    rows.append('| %s | %s | %s | %s | %s |' % (os.path.basename(d.rstrip('/')), m['summary'].replace('|','/').replace('\n',' ')[:230], m['needs'].replace('|','/').replace('\n',' ')[:200], ', '.join(caught) or '**missed**', sig.replace('|','/')))
+    rows.append('| %s | %s | %s | %s | %s |' % (os.path.basename(d.rstrip('/')), m['summary'].replace('|','/').replace('\n',' ')[:170], m['needs'].replace('|','/').replace('\n',' ')[:150], ', '.join(caught) or 'not claimed (see above)', sig.replace('|','/')))
 print('| seeded change | what was changed | what it needs to manifest | caught by | first signature |')
 print('|---|---|---|---|---|')
 print('\n'.join(rows))
